@@ -80,7 +80,7 @@ class SdcLocation:
         slash = quote('/', safe='')
         loc = slash.join(identifiers)  # this is a bit ugly, but urllib.quote does not touch slashes;
         query = urlencode(query_dict)
-        path = f'/{quote(self.root)}/{loc}'
+        path = f'/{quote(self.root, safe="")}/{loc}'
         return urlunparse(
             ParseResult(scheme=self.scheme, netloc=None, path=path, params=None, query=query, fragment=None),
         )
@@ -98,8 +98,8 @@ class SdcLocation:
         """Check if location in scope is inside own location."""
         try:
             other = self.__class__.from_scope_string(scope_text)
-        except UrlSchemeError:
-            # Scope has different scheme, no match
+        except (UrlSchemeError, ValueError):
+            # Scope has different scheme or is not a well-formed url, no match
             return False
         else:
             return other in self
@@ -131,8 +131,10 @@ class SdcLocation:
         if src.scheme.lower() != cls.scheme:
             msg = f'scheme "{src.scheme}" not excepted, must be "{cls.scheme}"'
             raise UrlSchemeError(msg)
-        dummy, root, _ = src.path.split('/')
-        root = unquote(root)
+        # path is "/<root>[/<extension>]"; the extension is redundant (all elements are in the query) and may be
+        # missing, e.g. for an instance identifier without extension.
+        path_elements = src.path.split('/')
+        root = unquote(path_elements[1]) if len(path_elements) > 1 else ''
         query_dict = dict(parse_qsl(src.query))
         # make a new argumentsDict with well known keys.
         # This allows to ignore unknown keys that might be present in query_dict
